@@ -9,6 +9,8 @@ CLAIMED["C02"] = ("DESIGN.md#c02", "Lean theorems for every well-formed zone tab
          "Lean 4 proof over zone-table model + differential correspondence run")
 CLAIMED["C03"] = ("DESIGN.md#c03", "Lean theorems: add of fixed-length units = fromUtc(toUtc + delta) on every well-formed zone table (instant moves by exactly delta, subtract inverts); carry normalisation preserves the total; correspondence of DateTime.add/subtract/+/- timedelta against the model around every sampled transition, both backends; oracle = integer instant arithmetic on the tz table",
          "Lean 4 proof over zone-table + add_duration model, differential correspondence run")
+CLAIMED["C01"] = ("DESIGN.md#c01", "Lean theorems for every well-formed zone table: conversion preserves the instant, fields/offset are the table's rendering, A->B->C = A->C, int_timestamp inverts from_timestamp, instance() keeps the instant; correspondence of in_tz/in_timezone/astimezone/convert/from_timestamp/instance (5 tzinfo kinds) against the model around transitions of every zone, both backends; oracle = integer instants from the tz table",
+         "Lean 4 proof over zone-table model + differential correspondence run")
 NA = {}
 def main():
     props = [json.loads(l) for l in open(os.path.join(ROOT, "properties.jsonl"))]
